@@ -3,6 +3,7 @@
 # Confirms a seeded change in a fresh scratch worktree: patch applies, repo builds, package tests pass with it,
 # demonstration passes without it and fails with it.  On success stores it as /verif/seeded/<id>/.
 set -u
+mkdir -p /var/tmp/seed-archive/$2 && cp -r $1/. /var/tmp/seed-archive/$2/
 SRC=$1; ID=$2; PROP=$3; PKG=$4; RX=$5; NEEDS=${6:-}
 export GOFLAGS=-mod=mod GOPROXY=off; unset GOSUMDB GOTOOLCHAIN
 WT=/tmp/wt-confirm-$ID
@@ -13,6 +14,7 @@ trap cleanup EXIT
 cd $WT
 cp $SRC/demo_test.go $PKG/zz_seed_demo_test.go
 go test -vet=off -count=1 -run "$RX" ./$PKG/ > /tmp/confirm-$ID-without.log 2>&1; W=$?
+grep -q "no tests to run" /tmp/confirm-$ID-without.log && { echo "$ID: regex '$RX' matches no test"; exit 1; }
 git apply $SRC/patch.diff || { echo "$ID: PATCH DOES NOT APPLY"; exit 1; }
 go build ./... > /tmp/confirm-$ID-build.log 2>&1; B=$?
 go test -vet=off -count=1 -run "$RX" ./$PKG/ > /tmp/confirm-$ID-with.log 2>&1; D=$?
@@ -33,5 +35,5 @@ json.dump(dict(id=i, property=prop, needs_to_manifest=needs, demo="copy demo_tes
 PY
   echo "$ID: CONFIRMED, stored"
 else
-  echo "$ID: NOT CONFIRMED (logs /tmp/confirm-$ID-*.log)"; tail -5 /tmp/confirm-$ID-tests.log
+  echo "$ID: NOT CONFIRMED (logs /tmp/confirm-$ID-*.log)"; tail -5 /tmp/confirm-$ID-tests.log; exit 1
 fi
